@@ -149,7 +149,7 @@ def run(ctx, P):
 
 
 META = dict(
-    bounds=dict(quick="all ordered pairs of the non-branching catalogue indicators, each value-branching one (RSI, ADX, Aroon, ...) against a rotating fifth of the others in both roles (smallest periods), plus 23 pairs with a name relation (prefix names, helper default names, prefix names of helper-owning indicators) and 18 pairs sharing (or not) a collapsing timeframe T2/T3; n = warm-up+2..3 candles; both registration orders; purge / recalculate / remove_indicator / add_indicator aimed at A",
+    bounds=dict(quick="all ordered pairs of the non-branching catalogue indicators, each value-branching one (RSI, ADX, Aroon, ...) against a rotating fifth of the others in both roles (smallest periods), plus 23 pairs with a name relation (prefix names, helper default names, prefix names of helper-owning indicators) and 18 pairs sharing (or not) a collapsing timeframe T2/T3; n = warm-up+2..3 candles; both registration orders; purge / recalculate / remove_indicator / add_indicator aimed at A; two of the shared-timeframe pairs also with the timeframe spelled T2/t2, t2/T2, T1/TimeFrame.MINUTE in both orders",
                 thorough="adds branching x branching pairs (except ADX/Aroon) and period-3 variants"),
     stubs=["exact real arithmetic, uninterpreted rounding and products"],
     assumptions=["pairs have distinct top-level names and neither takes the other as input"],
